@@ -267,6 +267,10 @@ pub fn run(ctx: &Ctx) {
                 if let Ok(w) = (p.pw_wrap)(kind, &pass, Some(&params), key) {
                     match (q.pw_unwrap)(kind, &pass, &w) {
                         Ok(k2) if k2 == *key => rep.nontrivial(format!("sib|{}->{}|pbkw|{kind}", p.name, q.name)),
+                        // libsodium has one Argon2 lane: a blob with another parallelism refused with InvalidKey is the
+                        // recorded finding about that backend (same class as where the specification side meets it), not
+                        // a disagreement of the pair
+                        Err(e) if q.name == "v4-sodium" && e == "InvalidKey" && params.len() == 16 && params[12..16] != [0, 0, 0, 1] => rep.violation("c07.v4-sodium.pbkw.parallelism", format!("v4-sodium refuses (InvalidKey) {}'s PBKW blob with parallelism {}", p.name, u32::from_be_bytes(params[12..16].try_into().unwrap())), json!({"text": w, "pass": hex::encode(&pass)})),
                         other => rep.violation(&format!("c07.siblings.{x}.pbkw"), format!("{} does not unwrap {}'s PBKW blob: {:?}", q.name, p.name, other.map(|z| z.len())), json!({"text": w, "pass": hex::encode(&pass)})),
                     }
                 }
